@@ -652,6 +652,8 @@ impl super::MainState {
                     sender
                         .send((user_nick.to_string(), comment.to_string()))
                         .map_err(|_| "error".to_string())?;
+                    #[cfg(simple_irc_server_verif)]
+                    verif::sig_sent();
                 }
             } else {
                 self.feed_msg(
@@ -748,6 +750,8 @@ impl super::MainState {
                     sender
                         .send((user_nick.to_string(), message.to_string()))
                         .map_err(|_| "error".to_string())?;
+                    #[cfg(simple_irc_server_verif)]
+                    verif::sig_sent();
                 }
             }
             if let Some(sender) = state.quit_sender.take() {
